@@ -16,6 +16,9 @@ type c16Case struct {
 	Cfg   CfgLit   `json:"config"`
 	Req   vlib.Req `json:"request"`
 	Route int      `json:"route,omitempty"` // construction route (see suite.go); debug ends up off on every route
+	// Seq 1 / 2: the request is served by one middleware that serves the whole request alphabet in order / in
+	// reverse order (whatever the requests before it left behind must not show)
+	Seq int `json:"sequence,omitempty"`
 }
 
 // c16Baseline is a preflight that certainly fails under l: an origin that is not allowed or, for allow-all
@@ -66,6 +69,10 @@ func c16MustFail(l CfgLit, r vlib.Req) (bool, string) {
 }
 
 func c16Judge(k c16Case) *vlib.Failure {
+	if k.Seq != 0 {
+		_, f := c16Sequence(k.Cfg, k.Seq, k.Req.String())
+		return f
+	}
 	bm, err := buildViaH(k.Route, k.Cfg, false, k.Req)
 	if err != nil {
 		return vlib.Failf("configuration of the C16 alphabet rejected (route %q): %v", routeNames[k.Route], err)
@@ -77,6 +84,38 @@ func c16Judge(k c16Case) *vlib.Failure {
 		return vlib.Failf("baseline failing preflight (origin or method not allowed) got status %d", base.Status)
 	}
 	res := vlib.Serve(h, &inner.Calls, k.Req, nil)
+	return c16Invariants(k, base, res)
+}
+
+// c16Sequence serves the request alphabet in order (seq 1) or in reverse order (seq 2) on one fresh middleware and
+// checks every response (up to the request rendered as `until`, if not empty); it returns the first offending request.
+func c16Sequence(l CfgLit, seq int, until string) (*vlib.Req, *vlib.Failure) {
+	m, err := cors.NewMiddleware(l.Config())
+	if err != nil {
+		return nil, vlib.Failf("configuration of the C16 alphabet rejected: %v", err)
+	}
+	inner := &vlib.Noop{}
+	h := m.Wrap(inner)
+	base := vlib.Serve(h, &inner.Calls, c16Baseline(l), nil)
+	reqs := c16Requests()
+	for i := range reqs {
+		r := reqs[i]
+		if seq == 2 {
+			r = reqs[len(reqs)-1-i]
+		}
+		res := vlib.Serve(h, &inner.Calls, r, nil)
+		if f := c16Invariants(c16Case{Cfg: l, Req: r}, base, res); f != nil {
+			f.Detail = fmt.Sprintf("as request #%d of the alphabet served on one middleware (sequence %d): %s", i+1, seq, f.Detail)
+			return &r, f
+		}
+		if until != "" && r.String() == until {
+			break
+		}
+	}
+	return nil, nil
+}
+
+func c16Invariants(k c16Case, base, res vlib.Resp) *vlib.Failure {
 	for hk, hv := range res.Hdr {
 		for _, v := range hv {
 			if strings.Contains(strings.ToLower(v), "canary") {
@@ -140,6 +179,37 @@ func c16Judge(k c16Case) *vlib.Failure {
 	return nil
 }
 
+func c16Alphabet() (origins, acrms, acrhs, acrpns [][]string) {
+	origins = [][]string{{"https://a.example"}, {"https://x.a.example"}, {"https://denied.example"}, {"https://a.example:8080"}, {"garbage"}, {"https://a.example/"}, {""}, {"null"}, {"https://a.example", "https://denied.example"}, {"https://denied.example", "https://a.example"}}
+	acrms = [][]string{{"GET"}, {"PUT"}, {"put"}, {"DELETE"}, {"@@"}, {""}, {"PUT", "DELETE"}, {"HEAD"}, {"PATCH"}}
+	acrhs = [][]string{nil, {}, {"x-a"}, {"x-a,x-b"}, {"x-a,x-z"}, {"x-z"}, {"x-b,x-a"}, {"x-a", "x-b"}, {"x-b", "x-a"}, {"\x00"}, {"X-A"}, {"authorization"}, {"authorization,x-a"}, {" x-a ,x-b"}, {",,x-a"}, {strings.Repeat(",", 17)}, {"x-a,x-a"}}
+	acrpns = [][]string{nil, {"true"}, {"TRUE"}, {"true", "false"}}
+	return
+}
+
+// c16Requests is the request alphabet as a list (the order of the product: ACRPN varies fastest).
+func c16Requests() []vlib.Req {
+	origins, acrms, acrhs, acrpns := c16Alphabet()
+	var out []vlib.Req
+	for _, o := range origins {
+		for _, am := range acrms {
+			for _, ah := range acrhs {
+				for _, ap := range acrpns {
+					hdr := map[string][]string{"Origin": o, "Access-Control-Request-Method": am}
+					if ah != nil {
+						hdr["Access-Control-Request-Headers"] = ah
+					}
+					if ap != nil {
+						hdr["Access-Control-Request-Private-Network"] = ap
+					}
+					out = append(out, vlib.Req{Method: "OPTIONS", Hdr: hdr})
+				}
+			}
+		}
+	}
+	return out
+}
+
 func c16Test(k c16Case) string {
 	return fmt.Sprintf(`package cors_test
 
@@ -199,10 +269,7 @@ func checkC16(c *vlib.Ctx) (string, string) {
 			cfgs = append(cfgs, b)
 		}
 	}
-	origins := [][]string{{"https://a.example"}, {"https://x.a.example"}, {"https://denied.example"}, {"https://a.example:8080"}, {"garbage"}, {"https://a.example/"}, {""}, {"null"}, {"https://a.example", "https://denied.example"}, {"https://denied.example", "https://a.example"}}
-	acrms := [][]string{{"GET"}, {"PUT"}, {"put"}, {"DELETE"}, {"@@"}, {""}, {"PUT", "DELETE"}, {"HEAD"}, {"PATCH"}}
-	acrhs := [][]string{nil, {}, {"x-a"}, {"x-a,x-b"}, {"x-a,x-z"}, {"x-z"}, {"x-b,x-a"}, {"x-a", "x-b"}, {"x-b", "x-a"}, {"\x00"}, {"X-A"}, {"authorization"}, {"authorization,x-a"}, {" x-a ,x-b"}, {",,x-a"}, {strings.Repeat(",", 17)}, {"x-a,x-a"}}
-	acrpns := [][]string{nil, {"true"}, {"TRUE"}, {"true", "false"}}
+	origins, acrms, acrhs, acrpns := c16Alphabet()
 	prod := vlib.Product{Sizes: []int{len(cfgs), len(origins), len(acrms), len(acrhs), len(acrpns)}}
 	type built struct {
 		h          http.Handler
@@ -237,6 +304,16 @@ func checkC16(c *vlib.Ctx) (string, string) {
 		}
 		c.SampleAt(i+1, func() any { return k })
 	})
+	// the whole alphabet on one middleware per configuration, in order and in reverse order
+	nreq := int64(len(c16Requests()))
+	c.ParRange(int64(2*len(cfgs)), 1, "C16 sequences", func(i int64) {
+		l, seq := cfgs[i/2], int(i%2)+1
+		c.Transitions.Add(nreq)
+		if r, f := c16Sequence(l, seq, ""); f != nil {
+			ck.Report(c16Case{Cfg: l, Req: *r, Seq: seq}, f)
+		}
+	})
+	c.Set("sequence_passes", 2*len(cfgs))
 	c.States.Add(prod.Count())
 	c.Transitions.Add(2 * prod.Count())
 	c.Set("product_sizes", map[string]int{"configurations": len(cfgs), "origin_lists": len(origins), "acrm_lists": len(acrms), "acrh_lists": len(acrhs), "acrpn_lists": len(acrpns)})
